@@ -143,6 +143,23 @@ def gen(rng, tier):
         if not _has_mismatch(c):
             cases.append({"k": "printed", "c": c})
         cases.append({"k": "tokparse", "toks": ["where"] + _rand_tokens(rng)})
+        # a valid sentence, mutated by deleting / duplicating / swapping one token
+        toks = ("where " + _cond_text(_gen_cond(rng, allcols, 2))).replace("(", " ( ").replace(")", " ) ").split()
+        toks = [t for t in toks]
+        if len(toks) > 2 and rng.random() < 0.7:
+            i = rng.randrange(1, len(toks))
+            r = rng.random()
+            if r < 0.35:
+                del toks[i]
+            elif r < 0.6:
+                toks.insert(i, toks[i])
+            elif r < 0.8 and i + 1 < len(toks):
+                toks[i], toks[i + 1] = toks[i + 1], toks[i]
+            else:
+                toks.insert(i, rng.choice(["and", "or", "not", "(", ")", "where"]))
+        if all(not (t.startswith('"') and not t.endswith('"')) and not (t.endswith('"') and not t.startswith('"'))
+               for t in toks):
+            cases.append({"k": "tokparse", "toks": toks})
     for _ in range(n):
         db = _gen_db(rng)
         shape = rng.random()
